@@ -33,6 +33,9 @@ CLAIMED = {
  "C16": ("finite-ness invariant hooks on the real prediction/MLL/likelihood functions + dense deletion oracle + policy-order history monitor",
          "Runtime monitoring: while a NaN policy is active every tensor leaving exact_predictive_mean/exact_predictive_covar/ExactMarginalLogLikelihood.forward/expected_log_prob/log_marginal is checked finite (hooks on the real functions); posterior mean, covariance and variance, the un-normalised MLL and the likelihood terms are compared with the dense closed forms on the observed subset (single-output, batched with per-element patterns, Kronecker multitask with per-task patterns; fast_pred_var on/off); the policies are run in every order on one model object and must agree. Decides executed cells only.",
          "'mask' with batched targets masks the union over batch elements (documented); MLL compared un-normalised; 'fill' for the MLL is documented unsupported.", "DESIGN.md §4 C16"),
+ "C04": ("snapshot/ensure contract around the real get_fantasy_model + dense conditional oracle on the concatenated data + carried-cache oracle",
+         "Runtime monitoring: before each real get_fantasy_model call the source model is snapshotted (state_dict, identity and values of training data, every tensor in the source strategy's memo caches, a probe prediction) and compared afterwards; the fantasy model's prediction is compared with the dense conditional on the concatenated data per fantasy batch element, and the caches it carries (stored mean_cache, covar_cache, root and root-inverse decompositions, training covariance) with the same quantities recomputed densely; patterns (m), (f,m) shared / per-fantasy inputs, (f,b,m); homoskedastic / fixed-noise (+learned) / Kronecker multitask likelihoods; depth 1-3; fast_pred_var and detach_test_caches on/off; IndependentModelList. Decides executed cells only.",
+         "Noise of the concatenated data is assembled from public parameters; KISS-GP (WISKI) fantasies are exercised under C09.", "DESIGN.md §4 C04"),
 }
 NOT_YET = "check not built yet in this round (see DESIGN.md §9 build order); not claimed until its monitor exists and is silent on the unchanged tree"
 
